@@ -1150,3 +1150,25 @@ def recursive_descriptions(rng):
     rng.shuffle(decls)
     out.append(e() + "\n\n".join(decls) + "\n")
     return out
+
+
+def nested_sized_mid(rng):
+    """Three levels in which the MIDDLE packet has a size-delimited payload of its own and no other dynamic field, with
+    constrained leaves of static size below it and an unsized or sized payload above it: octets left over behind the
+    middle packet's payload (an inner size that is too small, an octet appended) must be rejected at that level.
+    Widths and values stay within what every back end's class allows (sizes below 2^7).  Returns PDL texts."""
+    out = []
+    for i in range(3):
+        endian = rng.choice(["little", "big"])
+        top_sized = i == 1
+        t = "%s_endian_packets\n\n" % endian
+        t += "packet Tp%d {\n  kind : 8,\n  flags : 8,\n  %s_payload_\n}\n" % (i, "_size_(_payload_) : 8,\n  " if top_sized else "")
+        k = rng.randrange(1, 100)
+        t += "packet Md%d : Tp%d (kind = %d) {\n  m : 8,\n  _size_(_payload_) : 8,\n  _payload_\n}\n" % (i, i, k)
+        t += "packet Lx%d : Md%d (m = 1) {\n  x : 16\n}\n" % (i, i)
+        t += "packet Ly%d : Md%d (m = 2) {\n  y : 8,\n  z : 8\n}\n" % (i, i)
+        if i == 2:
+            t += "packet Lz%d : Md%d (m = 3) {\n  w : 8[3]\n}\n" % (i, i)
+        t += "packet Ot%d : Tp%d (kind = %d) {\n  v : 16\n}\n" % (i, i, k + 1)
+        out.append(t)
+    return out
